@@ -183,6 +183,7 @@ func runC18(c *eng.Ctx) {
 	// ---- R18.3 dispatch
 	c.Rule("R18.3", "K2")
 	ruleDispatchSurvivesCompaction(c)
+	ruleResumeAtTheFirstRetainedEntry(c)
 	if fn := c.Fn("server.(*activityManager).dispatch"); fn != nil {
 		hc := eng.CallsIn(fn, "server.activityManager.handleRaftLog")
 		gl := eng.CallsIn(fn, "github.com/hashicorp/raft.LogStore.GetLog", "github.com/hashicorp/raft-boltdb/v2.BoltStore.GetLog")
